@@ -183,7 +183,7 @@ def speed(lon, lat, secs, suspect, fail):
     out = []
     for i in range(n):
         if i == 0:
-            out.append(UM if (not present(lon[0]) and not present(lat[0])) else U)
+            out.append(U)   # C10: "flags the first point UNKNOWN" - whatever its position (C02 alone would also admit MISSING)
         elif full(lon, lat, i) and full(lon, lat, i - 1):
             sp = geodist(lat[i - 1], lon[i - 1], lat[i], lon[i]) / float(secs[i] - secs[i - 1])
             if sp > fail:
